@@ -858,9 +858,73 @@ def pin_readings():
     S.READINGS["initial-position"] = ("position",)
 
 
+def pin_from_cases(seed, cases, budget=4000):
+  """generalisation of pin_readings to EVERY rule the oracle reads two ways: look through the planned cases for a document on which
+  the two readings of a rule prescribe different values for some element, see which one the code computes there, and accept only
+  that reading from then on (for all documents of the run).  A rule for which no planned document discriminates stays open."""
+  pinned = {}
+  open_rules = [n for n, vals in S.READINGS.items() if len(vals) == 2]
+  for case in cases[:budget]:
+    if not open_rules:
+      break
+    try:
+      if case[0] == "case":
+        desc, times, _info = make_case(seed, *case[1:])
+      elif case[0] == "init":
+        desc, times, _info = make_initial_case(seed, *case[1:])
+      else:
+        continue
+      doc = build(desc)
+      t = times[0]
+      values, _sources, touched = S.resolve(doc, t)
+      rules = [n for n in open_rules if n in touched]
+      if not rules:
+        continue
+      isd = ISD.from_model(doc, t)
+    except Exception:  # pylint: disable=broad-except
+      continue
+    observed = {}
+    for region in isd.iter_regions():
+      rid = region.get_id()
+      for el in [region] + list(region.dfs_iterator()):
+        if _kind(el) != "Text" and el.get_id() is not None:
+          observed[(rid, el.get_id())] = {p.__name__: S.normalize(el.get_style(p)) for p in el.iter_styles()}
+    for n in rules:
+      a, b = S.READINGS[n]
+      try:
+        alt = S.resolve(doc, t, {n: b})[0]
+      except S.Undefined:
+        continue
+      votes = set()
+      for (rid, eid), obs in observed.items():
+        va, vb = values.get(rid, {}).get(eid), alt.get(rid, {}).get(eid)
+        if va is None or vb is None:
+          continue
+        for name in AFFECTS[n]:
+          if name in obs and name in va and name in vb and not S.same(va[name], vb[name]):
+            if S.same(obs[name], va[name]):
+              votes.add(a)
+            elif S.same(obs[name], vb[name]):
+              votes.add(b)
+      if len(votes) == 1:
+        pinned[n] = votes.pop()
+        open_rules.remove(n)
+  return pinned
+
+
+def apply_pins(pinned):
+  for n, v in pinned.items():
+    if n in S.READINGS and v in S.READINGS[n]:
+      S.READINGS[n] = (v,)
+
+
+_PINS = {}
+
+
 def run_chunk(chunk):
   logging.disable(logging.CRITICAL)
   pin_readings()
+  apply_pins(_PINS)
   seed, cases = chunk
   rec = Recorder(PROP, "", {})
   for case in cases:
@@ -946,6 +1010,12 @@ def main():
   rec = Recorder(PROP, "every snapshot element has, for each applicable property, the TTML-resolved value (oracle specs/styles.py)", scope)
   if missing:
     rec.errors.append(f"the plan does not cover {missing} pairs")
+  # where the oracle reads the specification two ways the code must still follow ONE reading everywhere: observe it, then pin it
+  pin_readings()
+  _PINS.update(pin_from_cases(args.seed, cases))
+  apply_pins(_PINS)
+  scope["readings_pinned_by_probe"] = dict(_PINS, **({"initial-position": S.READINGS["initial-position"][0]} if len(S.READINGS["initial-position"]) == 1 else {}))
+  scope["readings_left_open"] = sorted(n for n, v in S.READINGS.items() if len(v) > 1)
   n_chunks = 64
   chunks = [(args.seed, cases[i::n_chunks]) for i in range(n_chunks)]
   for r in parallel(run_chunk, chunks):
